@@ -18,3 +18,43 @@ pub(crate) fn switch_counting_model() {
         SWITCHES += 1;
     }
 }
+
+/// Contract model of `Scheduler::switch` for the phase that ENDS at the yield point: the harness
+/// has obliged the yielding state inside the `schedule` probe; the continuation after the switch
+/// is verified separately, so this path ends here.
+pub(crate) fn switch_cut_model() {
+    kani::cover!(true, "yield_point_reached");
+    kani::assume(false);
+}
+
+/// Contract model of `Scheduler::switch` that obliges the yielding state of a *blocking wait on
+/// object 0*: the calling thread must be `Blocked` with its pending operation on object 0 (so that
+/// exactly the matching notification can wake it), then ends the path.
+pub(crate) fn switch_yield_state_model() {
+    Scheduler::with_execution(|e| {
+        let a = crate::rt::thread::verif_kani::active_index(&e.threads).unwrap();
+        let v = crate::rt::thread::verif_kani::th_view(crate::rt::thread::verif_kani::thread_at(&e.threads, a));
+        assert!(v.st == crate::rt::thread::verif_kani::StView::Blocked, "OBL:C08.wait.yields_in_blocked_state");
+        assert!(v.op.map(|o| o.0) == Some(0), "OBL:C08.wait.blocked_on_this_object");
+    });
+    kani::cover!(true, "yield_point_reached");
+    kani::assume(false);
+}
+
+/// Contract model of `Scheduler::switch` for multi-phase operations: a switch taken while the
+/// caller is still runnable is a plain preemption (counted; the no-interference continuation is
+/// followed); a switch taken while the caller is `Blocked` is the end of the phase.
+pub(crate) fn switch_cut_if_blocked_model() {
+    let blocked = Scheduler::with_execution(|e| {
+        let a = crate::rt::thread::verif_kani::active_index(&e.threads).unwrap();
+        crate::rt::thread::verif_kani::thread_at(&e.threads, a).is_blocked()
+    });
+    if blocked {
+        kani::cover!(true, "yield_point_reached");
+        kani::assume(false);
+    } else {
+        unsafe {
+            SWITCHES += 1;
+        }
+    }
+}
